@@ -326,3 +326,38 @@ package ledger
 // of what counts as a well-formed address or asset is reported instead of silently changing the meaning of C25/C28.
 //@ pin C25 C28 :: accounts.Pattern == "^[a-zA-Z0-9_-]+(:[a-zA-Z0-9_-]+)*$"
 //@ pin C25 C28 :: assets.Pattern == "[A-Z][A-Z0-9]{0,16}(_[A-Z]{1,16})?(\\/\\d{1,6})?"
+
+// ---- chart.go / log.go: what "the chart accepts the postings" means (C29) -----------------------------
+// chartAccepts names the verdict of the recursive chart walk (findAccountSchema, recursive map-of-struct data,
+// outside the verified subset); the contracts below carry that verdict, unchanged, to the log validation.
+
+//@ declare chartAccepts(c ChartOfAccounts, addr string) bool
+//@ function postingAccepted(c ChartOfAccounts, p Posting) bool = chartAccepts(c, p.Source) && chartAccepts(c, p.Destination)
+
+//@ assumed func (c *ChartOfAccounts) FindAccountSchema(account string) (r *ChartAccount, err error)
+//@   ensures (err == nil) == chartAccepts(deref(c), account)
+//@   ensures (err == nil) == (r != nil)
+
+//@ func (c *ChartOfAccounts) ValidatePosting(posting Posting) (err error)
+//@   property C29
+//@   requires c != nil
+//@   ensures (err == nil) == postingAccepted(deref(c), posting)
+
+//@ func (p CreatedTransaction) ValidateWithSchema(schema Schema) (err error)
+//@   property C29
+//@   ensures (err == nil) == (forall i int :: {p.Transaction.Postings[i]} 0 <= i && i < len(p.Transaction.Postings) ==> postingAccepted(schema.Chart, p.Transaction.Postings[i]))
+//@   loop 1:
+//@     index k
+//@     invariant forall i int :: {p.Transaction.Postings[i]} 0 <= i && i < k ==> postingAccepted(schema.Chart, p.Transaction.Postings[i])
+
+//@ func (c *ChartAccount) DefaultMetadata() (r metadata.Metadata)
+//@   property C29
+//@   requires c != nil
+//@   ensures r != nil
+//@   ensures forall k string :: {has(r, k)} has(r, k) == (has(c.Metadata, k) && c.Metadata[k].Default != nil)
+//@   ensures forall k string :: {r[k]} has(r, k) ==> r[k] == deref(c.Metadata[k].Default)
+//@   loop 1:
+//@     visited vk
+//@     invariant defaultMetadata != nil
+//@     invariant forall k string :: {has(defaultMetadata, k)} has(defaultMetadata, k) == (vk[k] && has(c.Metadata, k) && c.Metadata[k].Default != nil)
+//@     invariant forall k string :: {defaultMetadata[k]} has(defaultMetadata, k) ==> defaultMetadata[k] == deref(c.Metadata[k].Default)
